@@ -333,6 +333,7 @@ class Network(BaseModel):  # pylint: disable=too-many-public-methods
                     if node.xy_id_offset is not None:
                         node_xy_id += node.xy_id_offset
                     self.graph.nodes[node_name]["id"] = node_xy_id
+                ni_coords = {}
                 for node_name, node in self.graph.get_ni_nodes(with_name=True):
                     node_xy_id = None
                     # Search for a neighbor node *with* an array index
@@ -357,6 +358,12 @@ class Network(BaseModel):  # pylint: disable=too-many-public-methods
                             "its connection to a router needs a direction")
                     if node.xy_id_offset is not None:
                         node_xy_id += node.xy_id_offset
+                    # The coordinate is the routing identity of the endpoint
+                    if node_xy_id in ni_coords:
+                        raise ValueError(
+                            f"{node_name} and {ni_coords[node_xy_id]} have the same "
+                            f"XY coordinate {node_xy_id.render()}")
+                    ni_coords[node_xy_id] = node_name
                     self.graph.nodes[node_name]["id"] = node_xy_id
             case RouteAlgo.ID | RouteAlgo.SRC:
                 for ep_name, ep in self.graph.get_ep_nodes(with_name=True):
